@@ -28,7 +28,7 @@ func loadEngine(cs *Contracts, pkgPaths []string, overlay map[string][]byte) (*E
 	if err != nil {
 		return nil, err
 	}
-	e := &Engine{pkgs: map[string]*packages.Package{}, contracts: cs, modPath: modPath}
+	e := &Engine{pkgs: map[string]*packages.Package{}, contracts: cs, modPath: modPath, overlay: overlay}
 	for _, p := range pkgs {
 		if len(p.Errors) > 0 {
 			return nil, fmt.Errorf("package %s has errors: %v", p.PkgPath, p.Errors[0])
